@@ -136,6 +136,7 @@ class Flow:
         self.stack = [func]
         self.snap = 0
         self._line = 0
+        self._cur_parts = None
         self.trace = []          # context: functions currently inlined
         self._memo = {}
 
@@ -337,7 +338,7 @@ class Flow:
         self._declared = declared
         return {i: n for i, n in assigned.items() if i not in declared}
 
-    def _havoc(self, S, hv, tag, declared=(), entry=False):
+    def _havoc(self, S, hv, tag, declared=(), entry=False, parts=None):
         out = []
         for s in S:
             s = s.copy()
@@ -345,7 +346,7 @@ class Flow:
                 s.env.pop(vid, None)
                 s.d.pop(("v", vid), None)
             if hv is not None and tag and not tag.endswith("'"):
-                self.dom.at_loop_head(self, s, hv, tag, {"names": hv, "entry": entry})
+                self.dom.at_loop_head(self, s, hv, tag, {"names": hv, "entry": entry, "parts": parts or self._cur_parts})
             for vid, name in (hv or {}).items():
                 if vid in s.env:
                     sym = "%s#%s" % (name, tag)
@@ -362,6 +363,14 @@ class Flow:
         domain facts iterate on their finite lattice."""
         hv = self._loop_assigned([cond, body, inc])
         decl = set(self._declared)
+        saved_parts = getattr(self, "_cur_parts", None)
+        self._cur_parts = [cond, body, inc]
+        try:
+            return self._loop_impl(S, cond, body, inc, test_first, hv, decl)
+        finally:
+            self._cur_parts = saved_parts
+
+    def _loop_impl(self, S, cond, body, inc, test_first, hv, decl):
         if self.dom.loop_mode(self, body) == "once" and test_first:
             return self._loop_once(S, cond, body, inc, hv, decl)
         tag = "L%s" % (body.get("line") or cond and cond.get("line") or "?")
